@@ -76,6 +76,9 @@ KINDS = {
     "defcall": "ALTER TABLE {T} ADD CONSTRAINT d7 DEFAULT getdate() FOR c;",
     "defpar": "ALTER TABLE {T} ADD CONSTRAINT d8 DEFAULT ((0)) FOR a;",
     # an added column that carries NOT NULL: inside an ALTER the word NULL is not lexed as the keyword (known finding)
+    # a foreign key to a table whose unqualified name is a grammar keyword; a fractional default value
+    "fkkw": "ALTER TABLE {T} ADD CONSTRAINT fk4 FOREIGN KEY (c) REFERENCES tag (y);",
+    "deffrac": "ALTER TABLE {T} ADD CONSTRAINT d9 DEFAULT 19.99 FOR c;",
     "addnn": "ALTER TABLE {T} ADD d int NOT NULL;",
     # pg_dump's way of giving a serial column its default: taken for a SQL Server column re-definition "a <type SET>" (known finding)
     "pgsetdef": "ALTER TABLE ONLY {T} ALTER COLUMN a SET DEFAULT 5;",
@@ -232,10 +235,10 @@ def apply(m, op):
         A.setdefault("uniques", []).append({"constraint_name": "u1", "columns": ["a", "b"]})
     elif k in ("chk", "only"):
         A.setdefault("checks", []).append({"constraint_name": "c1", "statement": "a > 0"} if k == "chk" else {"constraint_name": "c2", "statement": "c > 0"})
-    elif k in ("def", "def2", "defnull", "defstr", "defneg", "defkw", "defcall", "defpar"):
+    elif k in ("def", "def2", "defnull", "defstr", "defneg", "defkw", "defcall", "defpar", "deffrac"):
         targets, cname, val = {"def": (["a"], "d1", "0"), "def2": (["a", "c"], "d1", "0"), "defnull": (["c"], "d2", "NULL"), "defstr": (["b"], "d4", "'x'"),
                                "defneg": (["c"], "d5", "-1"), "defkw": (["c"], "d6", "CURRENT_TIMESTAMP"), "defcall": (["c"], "d7", "getdate()"),
-                               "defpar": (["a"], "d8", "((0))")}[k]
+                               "defpar": (["a"], "d8", "((0))"), "deffrac": (["c"], "d9", "19.99")}[k]
         A.setdefault("defaults", []).append({"constraint_name": cname, "columns": targets, "value": val})
         for c in cols:
             if c[0] in targets:
@@ -251,6 +254,8 @@ def apply(m, op):
             m["undef"] = True  # a key over a column that does not (or no longer) exist: the statement does not say what happens
     elif k == "fkact":
         A.setdefault("columns", []).append(["c", "y", "CASCADE", "RESTRICT"])
+    elif k == "fkkw":
+        A.setdefault("columns", []).append(["c", "y"])
     elif k == "fknc":
         A.setdefault("columns", []).extend([["a", None], ["c", None]])
     elif k == "fk2w":
